@@ -60,6 +60,10 @@ pub enum SeedSpec {
     Zero,
     Ones,
     SingleBit(u16),
+    /// random bytes with a structured feature: kind 0 leading zeros, 1 trailing zeros, 2 one 0xff
+    /// byte at pos, 3 one 0x00 byte at pos, 4 0xff at pos and pos+1, 5 all bytes equal,
+    /// 6 first byte 0xff, 7 top bit of every byte set
+    Pattern(u8, u8, u64),
 }
 impl SeedSpec {
     pub fn bytes(&self, n: usize) -> Vec<u8> {
@@ -67,6 +71,24 @@ impl SeedSpec {
             SeedSpec::Random(t) => expand(*t ^ 0x5eed, n),
             SeedSpec::Zero => vec![0u8; n],
             SeedSpec::Ones => vec![0xffu8; n],
+            SeedSpec::Pattern(kind, pos, t) => {
+                let mut v = expand(*t ^ 0x9a77, n);
+                let p = (*pos as usize) % n;
+                match kind % 8 {
+                    0 => v[..=p].iter_mut().for_each(|b| *b = 0),
+                    1 => v[p..].iter_mut().for_each(|b| *b = 0),
+                    2 => v[p] = 0xff,
+                    3 => v[p] = 0x00,
+                    4 => {
+                        v[p] = 0xff;
+                        v[(p + 1) % n] = 0xff;
+                    }
+                    5 => v.iter_mut().for_each(|b| *b = *pos),
+                    6 => v[0] = 0xff,
+                    _ => v.iter_mut().for_each(|b| *b |= 0x80),
+                }
+                v
+            }
             SeedSpec::SingleBit(i) => {
                 let mut v = vec![0u8; n];
                 let i = (*i as usize) % (8 * n);
@@ -82,6 +104,7 @@ pub fn seed_spec() -> BoxedStrategy<SeedSpec> {
         1 => Just(SeedSpec::Zero),
         1 => Just(SeedSpec::Ones),
         2 => (0u16..256).prop_map(SeedSpec::SingleBit),
+        4 => (0u8..8, any::<u8>(), any::<u64>()).prop_map(|(k, p, t)| SeedSpec::Pattern(k, p, t)),
     ]
     .boxed()
 }
